@@ -20,7 +20,7 @@ RULE = ('case = one history (sequence of encrypt/protect operations in one proce
         'distinct = distinct history descriptors; the evidence also counts distinct secret values observed')
 ASSUMPTIONS = ['unpredictability of os.urandom / OpenSSL RNG is not decidable by monitoring: freshness, size and provenance are observed',
                'ECDH ephemeral keys and RSA padding come from OpenSSL and are visible only through outputs']
-MIN_COUNTERS = {'quick': {'operations': 180, 'session_keys_checked': 120, 'prefixes_checked': 120, 'salts_checked': 40, 'ivs_checked': 15, 'ephemerals_checked': 60, 'urandom_calls_seen': 300, 'reprotect_operations': 5},
+MIN_COUNTERS = {'quick': {'operations': 180, 'session_keys_checked': 120, 'prefixes_checked': 120, 'salts_checked': 40, 'ivs_checked': 15, 'ephemerals_checked': 60, 'urandom_calls_seen': 300, 'reprotect_operations': 5, 'chained_recipient_operations': 10},
                 'thorough': {'operations': 3000}}
 BUDGET = {'quick': (240, 800), 'thorough': (1800, 3600)}
 TECHNIQUE = 'runtime monitoring: history monitor with interposed os.urandom (recording proxy) + reference extraction of secrets from outputs; freshness/size/provenance invariants'
@@ -35,13 +35,20 @@ def cases(tier, seed):
     for h in range(n_hist):
         ops = []
         while len(ops) < n_ops:
-            kind = r.choices(['enc_key', 'enc_pass', 'protect', 'enc_multi'], [6, 1.2, 1.4, 1])[0]
+            kind = r.choices(['enc_key', 'enc_pass', 'protect', 'enc_multi', 'enc_chain'], [6, 1.2, 1.4, 1, 1.2])[0]
             if kind == 'enc_key':
                 op = {'op': 'enc_key', 'rc': r.choice(encwork.RECIPIENTS), 'cipher': r.choice(ciphers), 'msg': r.randrange(3)}
             elif kind == 'enc_pass':
                 op = {'op': 'enc_pass', 'pw': r.randrange(2), 'cipher': r.choice(ciphers), 'hash': r.choice(['SHA1', 'SHA256']), 'msg': r.randrange(3)}
             elif kind == 'protect':
                 op = {'op': 'protect', 'key': r.choice(['ed25519_3', 'rsa1024_2', 'ecdsa_p256_1']), 'pw': r.randrange(2), 'cipher': r.choice(['AES128', 'AES256', 'CAST5', 'Camellia192']), 'hash': r.choice(['SHA1', 'SHA256'])}
+            elif kind == 'enc_chain':
+                # recipients added one after the other in any order, several passphrases (also the same one twice), one shared session key
+                steps = [r.choice([['pass', r.randrange(2)], ['pass', r.randrange(2)], ['key', r.choice(encwork.RECIPIENTS)]]) for _ in range(r.randint(2, 4))]
+                if sum(1 for x in steps if x[0] == 'pass') < 2:
+                    steps.append(['pass', steps[0][1] if steps[0][0] == 'pass' else 0])
+                    steps.insert(0, ['pass', r.randrange(2)])
+                op = {'op': 'enc_chain', 'steps': steps, 'cipher': r.choice(ciphers), 'msg': r.randrange(3)}
             else:
                 op = {'op': 'enc_multi', 'rcs': r.sample(encwork.RECIPIENTS, 2), 'pw': r.randrange(2), 'cipher': r.choice(ciphers), 'msg': r.randrange(3)}
             ops.append(op)
@@ -135,6 +142,19 @@ def run_case(ctx, d):
                     rec.start()
                     enc = msg.encrypt(PWS[op['pw']], cipher=calg, hash=getattr(HashAlgorithm, op['hash']))
                     secrets = [('pass', PWS[op['pw']].encode('utf-8'))]
+                elif op['op'] == 'enc_chain':
+                    ks = {x[1]: encwork.recipient(x[1]) for x in op['steps'] if x[0] == 'key'}
+                    rec.start()
+                    sk0 = calg.gen_key()
+                    enc = msg
+                    for st in op['steps']:
+                        if st[0] == 'key':
+                            enc = ks[st[1]][0].pubkey.encrypt(enc, cipher=calg, sessionkey=sk0)
+                            secrets.append(('key', ks[st[1]][1]))
+                        else:
+                            enc = enc.encrypt(PWS[st[1]], cipher=calg, sessionkey=sk0)
+                            secrets.append(('pass', PWS[st[1]].encode('utf-8')))
+                    ctx.count('chained_recipient_operations')
                 else:
                     ks = [encwork.recipient(x) for x in op['rcs']]
                     rec.start()
